@@ -9,6 +9,7 @@ import SvgVerif.Model.Parser
 import SvgVerif.Model.Lexer
 import SvgVerif.Model.Serializer
 import SvgVerif.Model.BBox
+import SvgVerif.Model.Radial
 /-! Correspondence driver: one operation per input line, one canonical result per
 output line.  Run as `lake env lean --run Driver.lean < ops.txt`.  The Python
 harness feeds the same operations to the real svgpathtools code and diffs. -/
@@ -340,6 +341,29 @@ def handle (cmd : String) (args : List String) : String :=
       let res := if cmd == "tst" then PathOps.weld segs tr else PathOps.weldOpen segs tr
       let starts := PathOps.rot1 (res.map (·.1))
       " ".intercalate ((res.zip starts).map fun (s, nx) => if s.2 = nx then "1" else "0")
+    | none => "bad-args"
+  | "bezradial" =>    -- 1-D stub: dist t = |c0 + c1 t + c2 t^2|; args: c0 c1 c2 | roots
+    match splitBar args with
+    | [[c0, c1, c2], rs] =>
+      match parseRat? c0, parseRat? c1, parseRat? c2, parseRats? rs with
+      | some c0, some c1, some c2, some rs =>
+        let dist : Rat → Rat := fun t => sabs (c0 + c1 * t + c2 * t * t)
+        match Radial.bezierRadial dist rs with
+        | some (a, b) => s!"{showRat a.1} {showRat a.2} {showRat b.1} {showRat b.2}"
+        | none => "none"
+      | _, _, _, _ => "bad-args"
+    | _ => "bad-args"
+  | "pathradial" =>   -- args: quadruples dmin tmin dmax tmax per segment
+    match parseRats? args with
+    | some xs =>
+      let rec rquads : List Rat → List ((Rat × Rat) × (Rat × Rat))
+        | a :: b :: c :: d :: r => ((a, b), (c, d)) :: rquads r
+        | _ => []
+      let sh : Option (Rat × Rat × Nat) → String
+        | none => "none"
+        | some (d, t, k) => s!"{showRat d} {showRat t} {k}"
+      let (mn, mx) := Radial.pathRadial (rquads xs)
+      sh mn ++ " | " ++ sh mx
     | none => "bad-args"
   | "minmax" =>
     match parseRats? args with
